@@ -357,3 +357,46 @@ def _maskred(kind):
 
 for _op in ("any", "all", "none", "count", "mask"):
     row(_op, "M", "S", prop="C03")(_maskred(_op))
+
+
+# ---- C04: loads and stores move exactly one register ---------------------------------------------------------------------------
+def _mem_arg(ctx):
+    m = [a for a in ctx.args if a.kind == "P"]
+    b = [a for a in ctx.args if a.kind == "B"]
+    if len(m) != 1 or m[0].tid != ctx.tid:
+        raise Unsupported("converting or multi-pointer memory operation")
+    return m[0], (b[0] if b else None)
+
+
+def _load(aligned):
+    def build(ctx):
+        R = ctx.ret = bind_ret(ctx, "B")
+        mem, _ = _mem_arg(ctx)
+        nbytes = ctx.n * ctx.w // 8
+        ctx.mem_bytes = {mem.cname: nbytes}
+        ctx.requires.append("__CPROVER_r_ok(%s, %d)" % (mem.scalar, nbytes))
+        if aligned:
+            ctx.requires.append("((u64)%s %% %d) == 0" % (mem.scalar, ARCHS[ctx.aid][1] // 8))
+        ctx.ensures += conj(["(%s == %s)" % (R.lane(i), mem.elem(i)) for i in range(ctx.n)])
+    return build
+
+
+def _store(aligned):
+    def build(ctx):
+        mem, b = _mem_arg(ctx)
+        nbytes = ctx.n * ctx.w // 8
+        ctx.mem_bytes = {mem.cname: nbytes}
+        ctx.requires.append("__CPROVER_w_ok(%s, %d)" % (mem.scalar, nbytes))
+        if aligned:
+            ctx.requires.append("((u64)%s %% %d) == 0" % (mem.scalar, ARCHS[ctx.aid][1] // 8))
+        ctx.ensures += conj(["(%s == %s)" % (mem.elem(i), b.lane(i)) for i in range(ctx.n)])
+        # frame: exactly size*sizeof(T) bytes starting at the pointer
+        ctx.assigns.append("__CPROVER_object_upto(%s, %d)" % (mem.scalar, nbytes))
+    return build
+
+
+row("load_aligned", "P", "B", prop="C04")(_load(True))
+row("load_unaligned", "P", "B", prop="C04")(_load(False))
+for _k in ("PB", "BP"):
+    row("store_aligned", _k, "V", prop="C04")(_store(True))
+    row("store_unaligned", _k, "V", prop="C04")(_store(False))
